@@ -134,6 +134,32 @@ fn one(vc: &VolCfg, cycles: usize, nfiles: usize, in_subdir: bool, stats_early: 
                 return Err(("remove".into(), format!("cycle {}: remove({}) failed: {:?}", c, nme, e)));
             }
         }
+        // a fixed root is filled with empty files until it refuses, then directory creations must fail there without
+        // costing a cluster (the volume is otherwise empty, so any capacity lost shows in the count below)
+        if !in_subdir && vc.fat != 32 {
+            let mut fillers = Vec::new();
+            for k in 0..4096 {
+                let nme = format!("root filler with a long name {}.tmp", k);
+                match dir.create_file(&nme) {
+                    Ok(f) => {
+                        drop(f);
+                        fillers.push(nme);
+                    }
+                    Err(_) => break,
+                }
+            }
+            for k in 0..2 {
+                let nme = format!("directory that cannot be created {}", k);
+                if dir.create_dir(&nme).is_ok() {
+                    let _ = dir.remove(&nme);
+                }
+            }
+            for nme in &fillers {
+                if let Err(e) = dir.remove(nme) {
+                    return Err(("remove".into(), format!("cycle {}: remove({}) failed: {:?}", c, nme, e)));
+                }
+            }
+        }
         let (free_del, diags) = raw_free(&dev).map_err(|e| ("decode".to_string(), e))?;
         if !diags.is_empty() {
             return Err(("fsck".into(), format!("cycle {} (after delete-all): {:?}", c, diags)));
